@@ -42,6 +42,7 @@ class TLCResult:
         value starts at a line beginning with << [ { " and extends until brackets balance."""
         vals = []
         buf, depth = [], 0
+        self.unparsed, self.unparsed_text = 0, []
         for l in self.out.splitlines():
             st = l.strip()
             if not buf:
@@ -56,7 +57,8 @@ class TLCResult:
                 try:
                     vals.append(parse_tla(" ".join(buf)))
                 except Exception:
-                    self.unparsed = getattr(self, "unparsed", 0) + 1
+                    self.unparsed += 1
+                    self.unparsed_text.append(" ".join(buf)[:1500])
                 buf, depth = [], 0
         return vals
 
